@@ -40,8 +40,10 @@ PRODUCED = []
 
 
 def make_msg(sender, seq, sysex):
-    if sysex == 'mixed' and sender == 0:
-        return mido.Message('clock')        # a real-time sender next to multi-byte senders (identified by count)
+    if sysex == 'mixed':
+        if sender == 0:
+            return mido.Message('clock')    # a real-time sender next to multi-byte senders (identified by count)
+        return mido.Message('control_change', channel=sender, control=seq, value=seq + 1)
     if sysex == 'same-type':
         # all senders use the same message type with different channels / data (shared encoder state would mix them)
         return mido.Message('polytouch', channel=sender, note=seq, value=seq + 1)
